@@ -143,7 +143,7 @@ Definition eval_seq (f : nat) (env : senv) : list ast -> sstore -> sres :=
 Lemma eval_Seq : forall f es env st, eval (S f) (Seq es) env st = eval_seq f env es st.
 Proof. reflexivity. Qed.
 
-Lemma eval_Lit : forall f l env st, eval (S f) (Lit l) env st = SVal (SLit l) st.
+Lemma eval_Lit : forall f l env st, eval (S f) (Lit l) env st = SVal (SLit (lit_value l)) st.
 Proof. reflexivity. Qed.
 
 Lemma eval_Cnd : forall f t p e env st,
@@ -219,7 +219,7 @@ Lemma step_jump_unless_true : forall s pre n post v r, at_code s pre [IJumpUnles
   step s = Next (upd s r (S (ip s)) (heap s)).
 Proof.
   intros s pre n post v r H Hs Hv. unfold step. rewrite (fetch _ _ _ _ H), Hs.
-  destruct v as [[z|[|]| | | |]| | | |]; try reflexivity. congruence.
+  destruct v as [[z|[|]| | | | |o|nd]| | | |]; try reflexivity. congruence.
 Qed.
 
 Lemma step_local_ref : forall s pre k post a v, at_code s pre [ILocalRef k] post ->
@@ -250,7 +250,7 @@ Proof.
   destruct p; try discriminate Ha; destruct w as [l | x y | ]; simpl in Hv; try contradiction;
     try (destruct Hv as (a & vx & vy & -> & Hn & H1 & H2)); subst; simpl in Hs; try discriminate;
     inversion Hs; subst; simpl; rewrite ?Hn; eexists; split; try reflexivity; simpl; auto;
-    try (destruct l as [z|[|]| | | |]; reflexivity).
+    try (destruct l as [z|[|]| | | | |o|nd]; reflexivity).
 Qed.
 
 Lemma prim2_ok : forall p h v1 v2 w1 w2 r stk0,
@@ -263,8 +263,8 @@ Lemma prim2_ok : forall p h v1 v2 w1 w2 r stk0,
 Proof.
   intros p h v1 v2 w1 w2 r stk0 Ha Hp H1 H2 Hs.
   destruct p; try discriminate Ha; try discriminate Hp.
-  all: try (destruct w1 as [[a| | | | |] | |]; simpl in Hs; try discriminate;
-            destruct w2 as [[b| | | | |] | |]; simpl in Hs; try discriminate;
+  all: try (destruct w1 as [[a| | | | | | |] | |]; simpl in Hs; try discriminate;
+            destruct w2 as [[b| | | | | | |] | |]; simpl in Hs; try discriminate;
             simpl in H1, H2; subst; inversion Hs; subst; simpl;
             eexists; exists []; rewrite app_nil_r; split; reflexivity).
   (* cons *)
@@ -295,7 +295,7 @@ Lemma sval_false_dec : forall h v w, vrel h v w ->
   (w = SLit (LBool false) /\ v = VLit (LBool false)) \/ (w <> SLit (LBool false) /\ v <> VLit (LBool false)).
 Proof.
   intros h v w H. destruct w as [l | x y | ]; simpl in H; try contradiction.
-  - subst. destruct l as [z|[|]| | | |]; try (right; split; congruence). left; auto.
+  - subst. destruct l as [z|[|]| | | | |o|nd]; try (right; split; congruence). left; auto.
   - destruct H as (a & vx & vy & -> & _). right; split; congruence.
 Qed.
 
@@ -363,7 +363,7 @@ Section Sim.
     - destruct e as [l | x o | x o e1 | t p e2 | es | id ps r ls sv fv b | g args | p args]; try discriminate Hp.
       + (* Lit *)
         rewrite eval_Lit in He. inversion He; subst. split; auto.
-        exists 1, (VLit l), []. split; [|rewrite app_nil_r; reflexivity].
+        exists 1, (VLit (lit_value l)), []. split; [|rewrite app_nil_r; reflexivity].
         apply nsteps_one. simpl generate in *. rewrite (step_push _ _ _ _ Hat).
         unfold final, upd; simpl. destruct Hat as [_ ->]. rewrite app_nil_r. f_equal. f_equal. lia.
       + (* Ref *)
@@ -421,7 +421,7 @@ Section Sim.
           -- simpl in Hv2. rewrite <- app_assoc in Hv2. exact Hv2.
         * (* test true: fall into the then branch, jump over the else branch *)
           assert (Hep : eval f p env st = SVal v st').
-          { destruct vt as [[z|[|]| | | |] | |]; try exact He; congruence. }
+          { destruct vt as [[z|[|]| | | | |o|nd] | |]; try exact He; congruence. }
           pose proof (step_jump_unless_true s1 _ _ _ v1 (stk s) Hat2 eq_refl Hv) as Hstep.
           set (s2 := upd s1 (stk s) (S (ip s1)) (heap s1)) in *.
           assert (Hat3 : at_code s2 (pre ++ ct ++ [IJumpUnless (S (length cp))]) cp ([IJump (length cf)] ++ cf ++ post)).
